@@ -899,8 +899,13 @@ def gen_tie_world(rng: random.Random, n_steps: int) -> Dict[str, Any]:
 def gen_world(rng: random.Random, *, n_steps: int = 40, fleets: Optional[bool] = None, humans: bool = True,
               dt: Optional[int] = None, tight: bool = True, focus: Optional[str] = None, osm: bool = False,
               pool: bool = False, variant: Optional[str] = None, far: bool = False, dry: bool = False,
-              away: bool = False) -> Dict[str, Any]:
+              away: bool = False, split_rows: bool = False) -> Dict[str, Any]:
     """a small world built to make vehicles contend: few plugs and stalls, co-located entities, low charge"""
+    if split_rows:
+        w_ = gen_world(rng, n_steps=n_steps, fleets=fleets, humans=humans, dt=dt, tight=tight, focus=focus, osm=osm, pool=pool,
+                       variant=variant, far=far, dry=dry, away=away)
+        w_["split_rows"] = True
+        return w_
     if focus == "queue":
         return gen_queue_world(rng, n_steps, variant)
     if focus == "energy":
